@@ -26,15 +26,15 @@ VARIABLES
     mode,      \* "listen" | "idle" | "gs" | "closed"
     gsTaken,   \* graceful_shutdown has done its one try_recv
     wAtShut,   \* chunks accepted by the channel when the shutdown began
-    cancels, hist
+    cancels, refusals, hist
 
-vars == << written, chan, pend, tx, win, mode, gsTaken, wAtShut, cancels, hist >>
+vars == << written, chan, pend, tx, win, mode, gsTaken, wAtShut, cancels, refusals, hist >>
 
 NoPend == << 0, 0 >>
 Min(a, b) == IF a < b THEN a ELSE b
 
 Init == /\ written = 0 /\ chan = 0 /\ pend = NoPend /\ tx = << >> /\ win = 0 /\ mode = "listen"
-        /\ gsTaken = FALSE /\ wAtShut = 0 /\ cancels = 0 /\ hist = << >>
+        /\ gsTaken = FALSE /\ wAtShut = 0 /\ cancels = 0 /\ refusals = 0 /\ hist = << >>
 
 (* ---- the codec ---- *)
 
@@ -42,7 +42,7 @@ Init == /\ written = 0 /\ chan = 0 /\ pend = NoPend /\ tx = << >> /\ win = 0 /\ 
 Take ==
     /\ mode = "listen" /\ pend = NoPend /\ chan # 0
     /\ pend' = << chan, 1 >> /\ chan' = 0
-    /\ UNCHANGED << written, tx, win, mode, gsTaken, wAtShut, cancels, hist >>
+    /\ UNCHANGED << written, tx, win, mode, gsTaken, wAtShut, cancels, refusals, hist >>
 
 \* flush_pending_download: one write of what the client takes
 WriteSome ==
@@ -52,19 +52,19 @@ WriteSome ==
        /\ tx' = tx \o [i \in 1..k |-> << c, o + i - 1 >>]
        /\ win' = win - k
        /\ pend' = IF o + k > Chunks[c] THEN NoPend ELSE << c, o + k >>
-    /\ UNCHANGED << written, chan, mode, gsTaken, wAtShut, cancels, hist >>
+    /\ UNCHANGED << written, chan, mode, gsTaken, wAtShut, cancels, refusals, hist >>
 
 \* graceful_shutdown: after the pending chunk is out, ONE try_recv
 GsTake ==
     /\ mode = "gs" /\ pend = NoPend /\ ~gsTaken
     /\ gsTaken' = TRUE
     /\ IF chan # 0 THEN pend' = << chan, 1 >> /\ chan' = 0 ELSE UNCHANGED << pend, chan >>
-    /\ UNCHANGED << written, tx, win, mode, wAtShut, cancels, hist >>
+    /\ UNCHANGED << written, tx, win, mode, wAtShut, cancels, refusals, hist >>
 
 GsClose ==
     /\ mode = "gs" /\ pend = NoPend /\ gsTaken
     /\ mode' = "closed"
-    /\ UNCHANGED << written, chan, pend, tx, win, gsTaken, wAtShut, cancels, hist >>
+    /\ UNCHANGED << written, chan, pend, tx, win, gsTaken, wAtShut, cancels, refusals, hist >>
 
 Codec == Take \/ WriteSome \/ GsTake \/ GsClose
 CodecEnabled == ENABLED Codec
@@ -77,30 +77,37 @@ Note(e) == hist' = Append(hist, [ev |-> e, tx |-> Len(tx)])
 SinkWrite ==
     /\ ~CodecEnabled /\ mode # "closed" /\ written < Len(Chunks) /\ chan = 0
     /\ written' = written + 1 /\ chan' = written + 1 /\ Note("SinkWrite")
-    /\ UNCHANGED << pend, tx, win, mode, gsTaken, wAtShut, cancels >>
+    /\ UNCHANGED << pend, tx, win, mode, gsTaken, wAtShut, cancels, refusals >>
+
+\* ... or the channel is full: the sink hands the chunk back (the pipe keeps it and waits) - the channel
+\* holds ONE chunk, which is what graceful_shutdown's single try_recv relies on
+SinkWriteRefused ==
+    /\ ~CodecEnabled /\ mode # "closed" /\ written < Len(Chunks) /\ chan # 0 /\ refusals < 2
+    /\ refusals' = refusals + 1 /\ Note("SinkWriteRefused")
+    /\ UNCHANGED << written, chan, pend, tx, win, mode, gsTaken, wAtShut, cancels >>
 
 Open(k) ==
     /\ ~CodecEnabled /\ mode # "closed" /\ pend # NoPend /\ win = 0
     /\ win' = k /\ Note(<< "Open", k >>)
-    /\ UNCHANGED << written, chan, pend, tx, mode, gsTaken, wAtShut, cancels >>
+    /\ UNCHANGED << written, chan, pend, tx, mode, gsTaken, wAtShut, cancels, refusals >>
 
 \* the caller drops the listen() future: NOTHING of the download state may be lost
 Cancel ==
     /\ ~CodecEnabled /\ mode = "listen" /\ cancels < MaxCancel
     /\ mode' = "idle" /\ cancels' = cancels + 1 /\ Note("Cancel")
-    /\ UNCHANGED << written, chan, pend, tx, win, gsTaken, wAtShut >>
+    /\ UNCHANGED << written, chan, pend, tx, win, gsTaken, wAtShut, refusals >>
 
 Relisten ==
     /\ ~CodecEnabled /\ mode = "idle"
     /\ mode' = "listen" /\ Note("Relisten")
-    /\ UNCHANGED << written, chan, pend, tx, win, gsTaken, wAtShut, cancels >>
+    /\ UNCHANGED << written, chan, pend, tx, win, gsTaken, wAtShut, cancels, refusals >>
 
 Shutdown ==
     /\ ~CodecEnabled /\ mode \in {"listen", "idle"}
     /\ mode' = "gs" /\ wAtShut' = written /\ Note("Shutdown")
-    /\ UNCHANGED << written, chan, pend, tx, win, gsTaken, cancels >>
+    /\ UNCHANGED << written, chan, pend, tx, win, gsTaken, cancels, refusals >>
 
-Env == SinkWrite \/ (\E k \in 1..MaxOpen : Open(k)) \/ Cancel \/ Relisten \/ Shutdown
+Env == SinkWrite \/ SinkWriteRefused \/ (\E k \in 1..MaxOpen : Open(k)) \/ Cancel \/ Relisten \/ Shutdown
 Next == Codec \/ Env
 Spec == Init /\ [][Next]_vars
 
